@@ -150,6 +150,23 @@ def check_artefact(ctx, a, stats):
                       dict(dx_xlow_is_zero=bool(np.all(A["dx"].get("xlow", np.zeros(1)) == 0))))
                 elif np.max(np.abs(got - w)) > 1e-10 * max(1.0, np.max(np.abs(w))):
                     V("ShiftTorsion differs from the centred x-difference of dphidy | xlow", reg, {})
+            # the region's first and last x-face: centred across the join where there is an
+            # x-neighbour (its nearest cell centres), one-sided to the face at a radial boundary
+            for edge, conn, i_face, i_c, i_cn in (("inner", "inner", 0, 0, -1), ("outer", "outer", -1, -1, 0)):
+                nb = regs.get(reg["connections"][conn]) if reg["connections"][conn] is not None else None
+                pc = pv[1::2]
+                if nb is not None:
+                    pcn = nb["psi_vals"][1::2]
+                    w = (dp["centre"][i_c, :] - nb["arrays"]["dphidy"]["centre"][i_cn, :]) / (pc[i_c] - pcn[i_cn])
+                else:
+                    w = (dp["centre"][i_c, :] - dp["xlow"][i_face, :]) / (pc[i_c] - pv[0::2][i_face])
+                got = st["xlow"][i_face, :]
+                stats["torsion_points"] += got.size
+                if not np.all(np.isfinite(got)) or np.max(np.abs(got - w)) > 1e-10 * max(1.0, np.max(np.abs(w))):
+                    j = int(np.argmax(np.abs(got - w)))
+                    V("ShiftTorsion on a region's %s x-face differs from the difference of dphidy across it | xlow" % edge,
+                      reg, dict(y_index=j, got=float(got[j]), want=float(w[j]),
+                                neighbour=nb["name"] if nb is not None else None))
     return True
 
 
